@@ -147,6 +147,13 @@ fn run_thread(sh: &Arc<Shared>, t: usize, ops: &[Value], controlled: bool) {
         };
         obs::api("inv", &[], idx, t as u64, 0);
         let (r, items) = exec(&sh.store, &sh.keys, op, &sh.vals);
+        if controlled && op["op"] == "flush" && r["tag"] == "unit" && sh.store.verif_device_size() > 0 {
+            // C02: what is on the device when flush() returns Ok: blocks offered by the allocator, blocks
+            // of the live generations, generations not yet written
+            let e = settled_event(&sh.store, sh.store.verif_device_size() / 4096);
+            obs::api("fst", &[], e["free"].as_u64().unwrap_or(0), e["live"].as_u64().unwrap_or(0),
+                     e["unwritten"].as_u64().unwrap_or(0) * 1_000_000 + e["data"].as_u64().unwrap_or(0));
+        }
         if !controlled {
             // what the caller itself can see right after its call returned (C13: an admitted write never
             // leaves usage above the limit); kept undecimated (b = 1)
@@ -235,6 +242,10 @@ fn history(raw: &[RawEv], sh: &Shared, keys: &[Vec<u8>]) -> Vec<Value> {
                                 "ts": limbs(e.a), "exp": limbs(e.b), "kind": e.c}));
             }
             "mem" => out.push(json!({"e": "mem", "v": e.a, "own": e.b})),
+            "fst" => {
+                let t = *tid_thread.get(&e.tid).unwrap_or(&0);
+                out.push(json!({"e": "fstate", "t": t, "free": e.a, "live": e.b, "unwritten": e.c / 1_000_000, "data": e.c % 1_000_000}));
+            }
             _ => {}
         }
     }
